@@ -361,6 +361,15 @@ func init() {
 				c.res.count(s.name+"-ctor16", fmt.Sprint(s.name, "c16", v), true)
 			}
 		}
+		// the same tables whatever the number of processors at first use
+		first := map[string][]uint32{}
+		for _, s := range spaces {
+			if s.from8 != nil {
+				first["decode8:"+s.name], first["decode16:"+s.name] = tables[s.name+"8"], tables[s.name+"16"]
+			}
+		}
+		checkStable(c, "C01", "decode", first)
+		gomaxprocsSweep(c, "C01", "decode")
 		c.res.sample(map[string]interface{}{"space": "srgb", "width": 16, "code": 32768, "bits": fmt.Sprintf("%#x", tables["srgb16"][32768])})
 		c.res.sample(map[string]interface{}{"space": "adobergb", "width": 8, "code": 128, "bits": fmt.Sprintf("%#x", tables["adobergb8"][128])})
 		c.res.sample(map[string]interface{}{"space": "prophotorgb", "width": 16, "code": 1000, "bits": fmt.Sprintf("%#x", tables["prophotorgb16"][1000])})
